@@ -27,6 +27,32 @@ GLOBAL_ASSUMPTIONS = [
 ]
 
 
+# bounded stand-ins (DESIGN 9.8): harnesses that run the real code on a stated, bounded family of inputs.  They are used only
+# for functions the verifier could not decide (contract no longer fits the code, unsupported construct, solver timeout) and
+# in the thorough tier as an extra exploration; what they cover is reported as *bounded*, never as proved.
+BOUNDED = [
+    dict(prefix='ml_pipeline_engine/dag_builders/annotation/builder.py::', script='bounded/builder.py', props=('C15', 'C16')),
+]
+VENV_PY = '/venv/bin/python'
+
+
+def run_bounded(h, prop, out_dir):
+    import subprocess
+    from pyvc import repo as repo_mod
+    os.makedirs(out_dir, exist_ok=True)
+    jpath = os.path.join(out_dir, 'bounded_' + os.path.basename(h['script'])[:-3] + '.json')
+    env = dict(os.environ, PYTHONPATH=f'{repo_mod.REPO_ROOT}:{VERIF}')
+    try:
+        r = subprocess.run([VENV_PY, os.path.join(VERIF, h['script']), '--json', jpath], capture_output=True, text=True,
+                           env=env, cwd=VERIF, timeout=1800)
+        res = json.load(open(jpath))
+    except Exception as e:   # noqa: BLE001
+        return dict(ok=None, error=f'{type(e).__name__}: {e}', path=jpath)
+    fails = [f for f in res.get('failures', []) if f.get('property') == prop]
+    return dict(ok=not fails, failures=fails, cases=res.get('cases'), bound=res.get('bound'), path=jpath, rc=r.returncode,
+                script=h['script'])
+
+
 def obligation_props(name, props):
     return clause_props(name, props)
 
@@ -67,6 +93,7 @@ def check_property(prop, tier='quick', seed=0):
     functions = []
     all_verdicts = []
     undecided = []
+    undecided_keys = {}      # function key -> messages (what the bounded stand-ins may take over)
     crashed = []
     trusted_base = set()
     assumed_contracts = []
@@ -81,16 +108,19 @@ def check_property(prop, tier='quick', seed=0):
         functions.append(dict(function=r['key'], lines=r.get('lines'), paths=r.get('paths'), outcomes=r.get('outcomes'),
                               wall_s=round(r.get('wall_s', 0), 2)))
         if r.get('missing'):
-            undecided.append(f'{fn}: function under contract not found in /repo')
+            undecided_keys.setdefault(r['key'], []).append(f'{fn}: function under contract not found in /repo')
         for u in r.get('unsupported', []):
-            undecided.append(f'{fn}: {u}')
+            undecided_keys.setdefault(r['key'], []).append(f'{fn}: {u}')
         if not r.get('verdicts') and not r.get('unsupported') and not r.get('missing'):
-            undecided.append(f'{fn}: the contract generated no obligations (vacuity guard)')
+            undecided_keys.setdefault(r['key'], []).append(f'{fn}: the contract generated no obligations (vacuity guard)')
         for a in r.get('assumptions', []):
             trusted_base.add(a)
         for v in r.get('verdicts', []):
             if prop in obligation_props(v['name'], r.get('props', [prop])):
                 all_verdicts.append(v)
+                if v['status'] == 'unknown':
+                    undecided_keys.setdefault(r['key'], []).append(
+                        f"{v['name']}: solver gave no answer ({v.get('reason', '')})")
 
     lines = []
     violations = []
@@ -106,7 +136,6 @@ def check_property(prop, tier='quick', seed=0):
                 samples.append(dict(obligation=v['name'], backend=v['backend'], solver_s=v['time_s'], paths=v['paths']))
         elif v['status'] == 'unknown':
             n_obl += 1
-            undecided.append(f"{v['name']}: solver gave no answer ({v.get('reason', '')})")
         else:
             k = open_known.get(v['name'])
             if k is not None:
@@ -124,6 +153,34 @@ def check_property(prop, tier='quick', seed=0):
                 rep = try_replay(prop, v)
                 path = write_replay(prop, v, rep)
                 violations.append((v, path, bool(rep and rep.get('reproduced'))))
+
+    # functions the verifier left undecided: a registered bounded stand-in may take over (labelled bounded, not proved)
+    bounded_runs = []
+    out_dir = os.path.join(VERIF, 'out' if not os.environ.get('PYVC_NO_EVIDENCE') else 'out/_selftest', prop)
+    for h in BOUNDED:
+        if prop not in h['props']:
+            continue
+        mine = [k for k in undecided_keys if k.startswith(h['prefix'])]
+        if not mine and tier != 'thorough':
+            continue
+        b = run_bounded(h, prop, out_dir)
+        b['stands_in_for'] = mine
+        bounded_runs.append(b)
+        if b['ok'] is None:
+            undecided.append(f"bounded stand-in {h['script']} could not run: {b.get('error')}")
+            continue
+        if b['ok']:
+            for k in mine:
+                undecided_keys.pop(k)
+        else:
+            f0 = b['failures'][0]
+            violations.append((dict(name=f"bounded:{h['script']}: {f0.get('template')} / {f0.get('case')}", backend='real code',
+                                    reason=f"observed {f0.get('observed')}; expected {f0.get('expected')} "
+                                           f"({len(b['failures'])} failing cases of {b['cases']})", info=None), b['path'], True))
+            for k in mine:
+                undecided_keys.pop(k)
+    for msgs in undecided_keys.values():
+        undecided.extend(msgs)
 
     # a listed open finding whose obligation is now discharged: report it (stale entry), not an error
     stale = [k for name, k in open_known.items() if name not in {v['name'] for _k, v in known_hits}
@@ -148,8 +205,14 @@ def check_property(prop, tier='quick', seed=0):
             lines.append(f'UNDECIDED property={prop} obligation={u}')
         exit_code = 2
     if exit_code == 0:
+        stood_in = sorted({k.split('::')[-1] for b in bounded_runs if b.get('ok') for k in b.get('stands_in_for', [])})
+        for b in bounded_runs:
+            if b.get('ok') and b.get('stands_in_for'):
+                lines.append(f"BOUNDED property={prop} {', '.join(k.split('::')[-1] for k in b['stands_in_for'])}: not decided by the "
+                             f"verifier; bounded stand-in {b['script']} found no failing input in {b['cases']} cases (not a proof)")
         lines.append(f'HELD property={prop} obligations={n_obl} discharged={n_discharged} '
-                     f'known_findings={len(known_hits)} functions={len(functions)} tier={tier}')
+                     f'known_findings={len(known_hits)} functions={len(functions)} tier={tier}'
+                     + (f' bounded_stand_ins={len(stood_in)}' if stood_in else ''))
     for s in stale:
         lines.append(f"NOTE: known finding '{s['obligation']}' is listed open but its obligation is discharged")
 
@@ -178,6 +241,10 @@ def check_property(prop, tier='quick', seed=0):
             dropped_by_extraction=DROPPED,
             repo_digest=repo.digest.hexdigest(),
             seeded_self_test=self_test,
+            bounded_stand_ins=[dict(script=b.get('script'), bound=b.get('bound'), cases=b.get('cases'), ok=b.get('ok'),
+                                    stands_in_for=b.get('stands_in_for'), failures=(b.get('failures') or [])[:5],
+                                    note='bounded: real code run on a stated finite family of inputs; never counted as proved')
+                               for b in bounded_runs],
             explanation='every named obligation is generated from the ast of /repo\'s current source by symbolic '
                         'execution against sidecar contracts and discharged by z3/cvc5 (unsat of pc ∧ ¬clause)',
         ),
